@@ -466,7 +466,7 @@ theorem closeStream_outs (st : St) : ∀ o ∈ (closeStream st).2,
       exact Or.inr (Or.inr ⟨_, _, rfl⟩)
 
 /-- **the connection is reused iff request and response are both complete, neither side asked to close (h11 then has
-    both sides DONE), the connection has not been lost (`handle(Closed)`, repair f219a22) and shutdown has not begun;
+    both sides DONE), the connection has not been lost (`handle(Closed)`, repair 1726ce9) and shutdown has not begun;
     otherwise `Closed` is sent** -/
 theorem reuse_iff (st : St) :
     (Out.startNextCycle true ∈ (maybeRecycle st).2 ↔
